@@ -122,3 +122,16 @@ M("c09-dmt-sign", "C09", BL, "            new_ar = kernels.dmt_block(self.data, 
 M("c09-rdb-short-read", "C09", R, "            range(first_sample, last_sample),", "            range(first_sample, first_sample + nsamps),", "original F09c")
 M("c09-roll-mod", "C09", K, "        shift = shifts[irow] % ncols\n        if shift == 0:", "        shift = abs(shifts[irow]) % ncols\n        if shift == 0:", "negative shifts rolled the wrong way")
 M("c09-ref-min-max", "C09", H, '            fch_ref = float(getattr(self, f"f{ref_freq}"))', '            fch_ref = float(getattr(self, f"f{ref_freq}")) if ref_freq != "min" or self.foff < 0 else float(self.fmax)', "ref 'min' resolves to the top channel for ascending bands")
+
+# ---- C10
+ST = "sigpyproc/core/stats.py"
+M("c10-merge-m3-sign", "C10", K, '    c["m3"][:] += 3 * delta * (a["count"] * b["m2"] - b["count"] * a["m2"]) / c["count"]', '    c["m3"][:] -= 3 * delta * (a["count"] * b["m2"] - b["count"] * a["m2"]) / c["count"]')
+M("c10-minmax-reinit", "C10", K, "    if startflag == 0:\n        for ichan in range(nchans):\n            moments[ichan][\"min\"] = array[ichan]\n            moments[ichan][\"max\"] = array[ichan]\n\n    for ichan in prange(nchans):\n        m1, m2, m3, m4 = (",
+  "    if startflag >= 0:\n        for ichan in range(nchans):\n            moments[ichan][\"min\"] = array[ichan]\n            moments[ichan][\"max\"] = array[ichan]\n\n    for ichan in prange(nchans):\n        m1, m2, m3, m4 = (", "full mode: min/max re-initialised on every chunk")
+M("c10-m4-uses-updated-m2", "C10", K, "    m1 += delta_n\n    m4 += term * delta_n2 * (n * n - 3 * n + 3) + 6 * delta_n2 * m2 - 4 * delta_n * m3\n    m3 += term * delta_n * (n - 2) - 3 * delta_n * m2\n    m2 += term\n",
+  "    m1 += delta_n\n    m3 += term * delta_n * (n - 2) - 3 * delta_n * m2\n    m2 += term\n    m4 += term * delta_n2 * (n * n - 3 * n + 3) + 6 * delta_n2 * m2 - 4 * delta_n * m3\n")
+M("c10-merge-m4-coeff", "C10", K, '        * (a["count"] ** 2 - a["count"] * b["count"] + b["count"] ** 2)', '        * (a["count"] ** 2 + a["count"] * b["count"] + b["count"] ** 2)')
+M("c10-merge-min", "C10", K, '    c["min"][:] = np.minimum(a["min"], b["min"])', '    c["min"][:] = np.minimum(a["min"], b["max"])')
+M("c10-var-bessel", "C10", ST, '        return self._moments["m2"] / self.nsamps', '        return self._moments["m2"] / max(self.nsamps - 1, 1)')
+M("c10-basic-m2", "C10", K, "    m1 += delta_n\n    m2 += delta * delta_n * (n - 1)\n    return m1, m2, n", "    m1 += delta_n\n    m2 += delta * delta_n * n\n    return m1, m2, n")
+M("c10-merge-count-int-division", "C10", K, '    c["m2"][:] = a["m2"] + b["m2"] + delta2 * a["count"] * b["count"] / c["count"]', '    c["m2"][:] = a["m2"] + b["m2"] + delta2 * (a["count"] * b["count"] // c["count"])', "merge uses integer division: exact only when n divides na*nb")
